@@ -603,6 +603,10 @@ pub fn handle(st: &mut State, req: &Value) -> Value {
                 // the write was refused: what does the next request of this build sequence see? (the previous value, if there was one)
                 let mut v = err_variant(&e);
                 v["write_err"] = json!(true);
+                if req.get("no_follow_up").and_then(Value::as_bool).unwrap_or(false) {
+                    // (the refused write is the last thing this process does with the layer)
+                    return v;
+                }
                 *seen.borrow_mut() = None;
                 match request() {
                     Ok(r) => {
